@@ -80,7 +80,7 @@ pub fn strategy() -> BoxedStrategy<C15Case>
         1 => Just(Some(vec!["txt".to_string()])),
         1 => Just(Some(vec!["rsx".to_string()])),
     ];
-    (vec(e, 1..14), exts, 0u8..4, 0u8..3, any::<bool>(), any::<bool>(), any::<bool>(), prop_oneof![3 => Just(false), 1 => Just(true)])
+    (vec(e, 1..14), exts, 0u8..6, 0u8..3, any::<bool>(), any::<bool>(), any::<bool>(), prop_oneof![3 => Just(false), 1 => Just(true)])
         .prop_map(|(entries, extensions, source_dir_form, cwd_form, config_abs, check_mode, structured, config_in_subdir)| C15Case {
             entries,
             extensions,
@@ -219,8 +219,12 @@ pub fn check(case: &C15Case) -> CaseOutcome
     // configuration
     let conf_dir = if case.config_in_subdir { proj.join("conf") } else { proj.clone() };
     std::fs::create_dir_all(&conf_dir).unwrap();
-    let source_dir = match (case.source_dir_form % 4, case.config_in_subdir)
+    let source_dir = match (case.source_dir_form % 6, case.config_in_subdir)
     {
+        (4, false) => "src/".to_string(),
+        (5, false) => "./src/.".to_string(),
+        (4, true) => "../src/".to_string(),
+        (5, true) => "../src/./".to_string(),
         (0, false) => "src".to_string(),
         (1, false) => "./src".to_string(),
         (2, false) => "sub/../src".to_string(),
@@ -395,7 +399,7 @@ pub fn check(case: &C15Case) -> CaseOutcome
     {
         o.class("config-in-subdirectory");
     }
-    o.class(&format!("source-dir-form-{}", case.source_dir_form % 4));
+    o.class(&format!("source-dir-form-{}", case.source_dir_form % 6));
     if links > 0
     {
         o.class("has-symlinks");
@@ -406,7 +410,7 @@ pub fn check(case: &C15Case) -> CaseOutcome
     }
     o.nontrivial = ((lookalikes > 0 || links > 0) && deep_in_scope > 0) || (case.cwd_form % 3 != 0 && !expected.is_empty());
     let _ = hash_of(&0);
-    o.sample = Some(json!({"files": all_files, "extensions": exts, "in_scope": expected, "source_dir": cfg.source_dir, "cwd_form": case.cwd_form % 3, "config_abs": case.config_abs,
+    o.sample = Some(json!({"files": all_files, "extensions": exts, "in_scope": expected, "source_dir": cfg.source_dir.clone(), "cwd_form": case.cwd_form % 3, "config_abs": case.config_abs,
         "mode": if case.check_mode { "check" } else { "edit" }}));
     o
 }
@@ -415,7 +419,7 @@ pub fn run(env: &Env, rec: &Recorder) -> (String, Vec<&'static str>)
 {
     pbt(env, rec, "layouts", env.cases(4000, 60_000), &strategy, &check);
     (
-        "directory layouts: up to 13 entries over 8 directory shapes (nesting <= 4, a directory named x.rs, names with spaces) x 20 file names (look-alike extensions .RS .rsx .rs.bak .rs~ .Rs 'rs' none, hidden, unicode, double extensions), symlinks to files and directories inside and outside the source dir, canary files outside the source dir and in a decoy src/ under the invocation directory; extension lists omitted/[rs]/[rs,rsx]/[RS]/[txt]/[rsx]; source_dir as src, ./src, sub/../src, absolute; configuration file in the project root or in a sub-directory (source_dir then contains `..`, with a look-alike src/ next to the configuration); invocation from the project dir, its parent, an unrelated dir; config path relative or absolute; both modes, both styles. Every regular file holds one statement lacking a reference. Oracle: independent scope rule; edit modifies exactly the in-scope set (one insertion each), everything else byte-identical, symlinks unchanged, Breadlog.lock only next to the config; --check scans and reports exactly the in-scope set. Non-trivial = distinct layout with a look-alike or symlink and an in-scope file at depth >= 2, or invoked from another directory".to_string(),
+        "directory layouts: up to 13 entries over 8 directory shapes (nesting <= 4, a directory named x.rs, names with spaces) x 20 file names (look-alike extensions .RS .rsx .rs.bak .rs~ .Rs 'rs' none, hidden, unicode, double extensions), symlinks to files and directories inside and outside the source dir, canary files outside the source dir and in a decoy src/ under the invocation directory; extension lists omitted/[rs]/[rs,rsx]/[RS]/[txt]/[rsx]; source_dir as src, ./src, sub/../src, src/, ./src/., absolute; configuration file in the project root or in a sub-directory (source_dir then contains `..`, with a look-alike src/ next to the configuration); invocation from the project dir, its parent, an unrelated dir; config path relative or absolute; both modes, both styles. Every regular file holds one statement lacking a reference. Oracle: independent scope rule; edit modifies exactly the in-scope set (one insertion each), everything else byte-identical, symlinks unchanged, Breadlog.lock only next to the config; --check scans and reports exactly the in-scope set. Non-trivial = distinct layout with a look-alike or symlink and an in-scope file at depth >= 2, or invoked from another directory".to_string(),
         vec!["the source dir itself being a symlink, non-UTF-8 file names and a file literally named .rs are not generated (the statement does not settle them)"],
     )
 }
